@@ -238,10 +238,11 @@ Section TableSlice.
       + rewrite Hk, Hv. apply (view_kv l ris Hpos a zl rs rl vok). exact Hi.
   Qed.
 
-  Lemma get_ok_s t i : RI (ti_index t) (CAt i) -> ti_slice t = sl ->
-    exists d0 R, index_get c rd t = Some (DBlock d0) /\ refines_over c (nth i V []) R /\ R d0 CSOI.
+  Lemma get_ok_s strict t i : RI (ti_index t) (CAt i) -> static sl strict t ->
+    (exists d0 R, index_get c rd t = Some (DBlock d0) /\ refines_over c (nth i V []) R /\ R d0 CSOI) \/
+    (index_get c rd t = Some (DEmpty ErrCorrupt) /\ nth i V [] = [] /\ strict = false).
   Proof.
-    intros R Hsl. pose proof jz_le as Hz.
+    intros R [Hsl _]. left. pose proof jz_le as Hz.
     pose proof R as (Hi & Hs & Hd & Hk & Hv & Ho & Hp & _).
     assert (Hj : (ja + i < m)%nat) by lia.
     unfold index_get.
@@ -287,8 +288,8 @@ Section TableSlice.
     fst (ti_run c rd t ops) = c_run c (restrict c start limit (tkvs blocks)) CSOI ops.
   Proof.
     intros Et R0. rewrite <- V_concat.
-    apply (trun_refines c rd sl IL RI RI_refines V V_len get_ok_s route_at_s route_eoi_s index_fuel ops t CSOI).
-    subst t. split; [reflexivity|]. split; [reflexivity|]. split; [reflexivity | exact R0].
+    apply (trun_refines c rd sl strict IL RI RI_refines V V_len (get_ok_s strict) route_at_s route_eoi_s index_fuel ops t CSOI).
+    subst t. split; [reflexivity|]. split; [split; reflexivity|]. split; [reflexivity | exact R0].
   Qed.
 End TableSlice.
 
